@@ -365,6 +365,9 @@ def run(ctx, res):
     check_chunknz(res, facts)
     from rules import c01
     c01.check_batchinv_par(res, facts)
+    # the wNAF MSM cuts its scalars in a serial and in a parallel twin; both must keep the digit rows aligned with the bases
+    from rules import c05
+    c05.check_digitalign(res, facts)
     return {
         "level": "other",
         "explanation": "Effect/ownership and sibling rules over the MIR of the crates built with their `parallel` features, compared with the serial build: captured state of every rayon closure is Freeze and free of synchronisation primitives, parallel reductions are over commutative monoids, serial and parallel variants of a function share their kernels, chunk accumulators start from the monoid identity. Together with Rust's Send/Sync typing this decides independence of the interleaving for a fixed split. Correctness of per-chunk offsets / tails for every thread count is arithmetic on run-time values and NOT decided (the `configurations` half of the quantifier).",
